@@ -73,6 +73,33 @@ def _tainted_names(fn: ast.FunctionDef, seeds: set[str], prog: Program, fi: Func
     return tainted
 
 
+def _data_tainted(fn: ast.FunctionDef, seeds: set[str]) -> set[str]:
+    """names whose VALUE may depend on the seeds through assignments only (no control dependence)"""
+    t = set(seeds)
+    changed = True
+    while changed:
+        changed = False
+        for s in ast.walk(fn):
+            val, tgts = None, []
+            if isinstance(s, ast.Assign):
+                val, tgts = s.value, s.targets
+            elif isinstance(s, (ast.AnnAssign, ast.AugAssign)) and s.value is not None:
+                val, tgts = s.value, [s.target]
+            elif isinstance(s, ast.For):
+                val, tgts = s.iter, [s.target]
+            elif isinstance(s, ast.NamedExpr):
+                val, tgts = s.value, [s.target]
+            if val is None:
+                continue
+            if any(isinstance(n, ast.Name) and n.id in t for n in ast.walk(val)):
+                for tg in tgts:
+                    for n in ast.walk(tg):
+                        if isinstance(n, ast.Name) and n.id not in t:
+                            t.add(n.id)
+                            changed = True
+    return t
+
+
 def _return_depends(prog: Program, fi: FuncInfo, param: str, depth: int = 0) -> list[tuple[ast.Return, bool, str]]:
     tainted = _tainted_names(fi.node, {param}, prog, fi)
     out = []
@@ -137,18 +164,40 @@ def check(ctx: Ctx, ev: Evidence) -> list[Finding]:
         if not dep:
             out.append(Finding("C09-R1", k, f"checksum result does not depend on the prefix length size_to_verify ({how or 'no data or control dependence'})", loc(fi, r)))
     # R2
-    loops = [n for n in ast.walk(fi.node) if isinstance(n, ast.While)]
-    if len(loops) != 1:
-        raise AnalysisError(f"calculate_checksum: expected exactly one CRC loop, found {len(loops)} (tiling idiom not recognised)")
-    w = loops[0]
+    # (a) definite, shape-independent part: what is fed to the CRC must be trimmed to the prefix, i.e. the fed bytes are
+    #     data-dependent on size_to_verify (a loop TEST that depends on it stops the loop but does not trim the last block)
+    dt = _data_tainted(fi.node, {"size_to_verify"})
+    feeds = [n for n in ast.walk(fi.node) if isinstance(n, ast.Call) and isinstance(n.func, ast.Attribute) and n.func.attr == "update" and n.args]
+    feeds = [n for n in feeds if any(isinstance(l, (ast.While, ast.For)) and any(x is n for x in ast.walk(l)) for l in ast.walk(fi.node))]
+    if not feeds:
+        raise AnalysisError("calculate_checksum: no CRC update inside a loop (anchor vanished)")
+    for u in feeds:
+        dep = any(isinstance(n, ast.Name) and n.id in dt for n in ast.walk(u.args[0]))
+        ev.inst("C09-R2", f"bytes fed by `{ast.unparse(u)[:60]}` are trimmed by the prefix length (data dependence on size_to_verify)", "ok" if dep else "violation", loc(fi, u))
+        if not dep:
+            out.append(Finding("C09-R2", f"{fi.qualname} | CRC loop | fed block not trimmed to the prefix",
+                               f"the bytes passed to `{ast.unparse(u)[:60]}` do not depend on size_to_verify: the last block is read with the chunk length and covers bytes beyond the requested prefix whenever the prefix is not a multiple of the chunk length", loc(fi, u)))
+    if any(f.rule == "C09-R2" for f in out):
+        loops = []
+    else:
+        loops = [n for n in ast.walk(fi.node) if isinstance(n, ast.While)]
+        if len(loops) != 1:
+            raise AnalysisError(f"calculate_checksum: expected exactly one CRC loop, found {len(loops)} (tiling idiom not recognised)")
+    w = loops[0] if loops else None
     probs = []
     cur = None
-    if isinstance(w.test, ast.Compare) and len(w.test.ops) == 1 and isinstance(w.test.ops[0], ast.Lt) and isinstance(w.test.left, ast.Name) \
+    if w is None:
+        pass
+    elif isinstance(w.test, ast.Compare) and len(w.test.ops) == 1 and isinstance(w.test.ops[0], ast.Lt) and isinstance(w.test.left, ast.Name) \
             and ast.unparse(w.test.comparators[0]) == "size_to_verify":
         cur = w.test.left.id
     else:
         probs.append(f"loop test `{ast.unparse(w.test)}` is not `<cursor> < size_to_verify`")
-    ev.inst("C09-R2", f"loop test {ast.unparse(w.test)}", "ok" if cur else "violation", loc(fi, w))
+    if w is not None:
+        ev.inst("C09-R2", f"loop test {ast.unparse(w.test)}", "ok" if cur else "violation", loc(fi, w))
+        if not cur and not probs[:-1]:
+            # the fed bytes are trimmed somehow, but not in a shape this rule can verify: fail closed, do not accuse
+            raise AnalysisError(f"calculate_checksum: CRC loop shape not recognised ({probs[-1]}); the tiling argument cannot be made")
     if cur:
         init = [s for s in ast.walk(fi.node) if isinstance(s, ast.Assign) and any(isinstance(t, ast.Name) and t.id == cur for t in s.targets) and s.lineno < w.lineno]
         ok = len(init) == 1 and isinstance(init[0].value, ast.Constant) and init[0].value.value == 0
